@@ -163,7 +163,12 @@ impl<T, E> Write<Result<T, E>> {
 pub unsafe trait DerefWrite: Deref {}
 
 // SAFETY: All these types have pure & non-GC-traversing Deref impls
-unsafe impl<T: ?Sized> DerefWrite for &T {}
+//
+// A shared reference does not own its pointee, so a `&Write<&T>` says nothing about who else can
+// reach the `T`: `Write::from_mut(&mut some_ref)` is exclusive access to the *reference* only. The
+// projection is therefore limited to `'static` pointees, which can never hold `Gc` pointers (the
+// only references that can live inside a garbage collected value are `&'static T` anyway).
+unsafe impl<T: ?Sized + 'static> DerefWrite for &T {}
 unsafe impl<T: ?Sized> DerefWrite for alloc::boxed::Box<T> {}
 unsafe impl<T> DerefWrite for Vec<T> {}
 unsafe impl<T: ?Sized> DerefWrite for alloc::rc::Rc<T> {}
